@@ -180,6 +180,24 @@ CHECKS = {
 ALL = ['C%02d' % i for i in range(1, 21)]
 
 
+CROSS_DEFAULT = (' Cross-cutting dimensions explored in the same run (DESIGN.md Part II, fourth round): every exact numeric / '
+                 'matrix / object form of the same input (ints, numpy integers and floats, read-only and strided arrays, objects '
+                 'rebuilt from text, with fields assigned, pickled, copied); alternative process environments (time zone, decimal '
+                 'context, numpy print options, cwd) around every n-th case; failing / extreme "poison" calls between cases; and a '
+                 "'threads' sub-check: every interleaving (line granularity, <= 1 preemption quick / 2 thorough) of two calls of the "
+                 "property's own API with different inputs per thread, each result compared with the call executed alone.")
+CROSS = {
+    'C09': (' Also: shared caller-owned objects (histories of depth 3 and all pairs of calls on one object under the scheduler), '
+            'rejected calls as history elements, hash twins (-1 / -2), statements on constants (+=), and the soak sub-check '
+            '(1500 / 6000 distinct argument tuples through each of 20 functions and back in reverse order, anchored in a pristine '
+            'interpreter).'),
+    'C18': (' Also: parameter orders other than station-major (positions-then-velocities, velocities first, X/VX pairs, reversed '
+            'stations), running clocks (the substituted clock advances between readings across second / midnight / year '
+            'boundaries), alternative process environments; the editing functions write a fixed output file and are explored '
+            'sequentially.'),
+}
+
+
 def build():
     checks = []
     for pid in ALL:
@@ -193,7 +211,7 @@ def build():
             'evidence_file': 'evidence/%s.json' % pid,
             'replay_cmd_template': 'bin/check --replay {path}',
             'engine': 'gpmc',
-            'level_claimed': {'category': 'model_checking', 'text': c['text'], 'design_ref': c['design']},
+            'level_claimed': {'category': 'model_checking', 'text': c['text'] + CROSS.get(pid, CROSS_DEFAULT), 'design_ref': c['design']},
             'level_note': c['note'],
             'technique': c.get('technique', TECH),
         })
@@ -216,7 +234,7 @@ def build():
             'name': 'gpmc', 'path': 'gpmc/',
             'serves_properties': [c['property_id'] for c in checks],
             'kind_free_text': 'hand-written explicit-state explorer for Python: complete enumeration of input lattices x '
-                              'configurations x operation sequences (and thread schedules for C09) executed on the real '
+                              'configurations x input forms x process environments x operation sequences x thread schedules executed on the real '
                               'code, checked against independent oracles (mpmath / exact rationals)',
         }],
         'checks': checks,
